@@ -118,9 +118,20 @@ func ExecuteRequest(ctx context.Context, req *thunderpb.ExecuteRequest, gqlSchem
 		}, nil
 	}, time.Hour, false)
 
-	<-done
+	// A rerunner whose context is already cancelled never calls its function, so
+	// waiting for the function alone would block for ever. Stop waits for a run
+	// that is in progress, after which the results are safe to read.
+	select {
+	case <-done:
+	case <-ctx.Done():
+	}
 
 	rerunner.Stop()
+	select {
+	case <-done:
+	default:
+		return nil, ctx.Err()
+	}
 	return queryResponse, queryError
 }
 
